@@ -273,3 +273,48 @@ func TestDistinctFromAndDefaultValues(t *testing.T) {
 		t.Errorf("DEFAULT in VALUES: got %v", res.Rows)
 	}
 }
+
+// TestStatementVariants: valid spellings the generated code does not use today.
+
+func TestStatementVariants(t *testing.T) {
+	db := NewDB()
+	schema := []string{
+		"CREATE TABLE IF NOT EXISTS a (id serial PRIMARY KEY, n int NOT NULL, s varchar NOT NULL, k int4, note text NULL);",
+		"CREATE TABLE b (id integer GENERATED BY DEFAULT AS IDENTITY PRIMARY KEY, ida integer NOT NULL REFERENCES a (id) ON DELETE CASCADE, v smallint NOT NULL CHECK (v IN (0,1)));",
+		"CREATE TABLE public.c (id serial PRIMARY KEY, x integer NOT NULL);",
+		"ALTER TABLE ONLY a ADD CONSTRAINT a_n_unique UNIQUE (n);",
+	}
+	for _, q := range schema {
+		if err := db.ExecScript(q); err != nil {
+			t.Errorf("SCHEMA %s: %v", q, err)
+		}
+	}
+	stmts := []struct {
+		q    string
+		args []any
+	}{
+		{"INSERT INTO a (n, s) VALUES ($1, $2) RETURNING *", []any{int64(1), "x"}},
+		{"SELECT a.id, a.n FROM a WHERE a.id = $1", []any{int64(1)}},
+		{"SELECT x.id, x.n FROM a AS x WHERE x.id = $1", []any{int64(1)}},
+		{"SELECT id, n FROM a x WHERE x.id = $1", []any{int64(1)}},
+		{"SELECT id, n FROM a WHERE id = $1::integer", []any{int64(1)}},
+		{"SELECT id, n FROM a WHERE id IN ($1)", []any{int64(1)}},
+		{"SELECT id, n FROM a ORDER BY id", nil},
+		{"SELECT id, n FROM a WHERE id = $1 LIMIT 1", []any{int64(1)}},
+		{"SELECT id, n FROM a ORDER BY id DESC LIMIT 10", nil},
+		{"UPDATE a SET n = $2, s = $3 WHERE id = $1 RETURNING id, n, s", []any{int64(1), int64(2), "y"}},
+		{"DELETE FROM a WHERE id = ANY($1::integer[]) RETURNING id", []any{"{1}"}},
+		{"SELECT id FROM public.c WHERE x = $1", []any{int64(1)}},
+		{"SELECT \"id\" FROM \"a\" WHERE \"n\" = $1", []any{int64(1)}},
+		{"select id from a where n = $1;", []any{int64(1)}},
+		{"SELECT id FROM a WHERE n BETWEEN $1 AND $2", []any{int64(1), int64(2)}},
+		{"SELECT id FROM a WHERE NOT (n = $1)", []any{int64(1)}},
+		{"SELECT id FROM a WHERE id = $1 FOR UPDATE", []any{int64(1)}},
+		{"SELECT COALESCE(k, 0) FROM a", nil},
+	}
+	for _, st := range stmts {
+		if _, _, err := db.Exec(st.q, st.args); err != nil {
+			t.Errorf("%s: %v", st.q, err)
+		}
+	}
+}
